@@ -1,22 +1,30 @@
 /-
 Model of ares_reinit() / ares_reinit_thread() / ares_destroy() (src/lib/ares_init.c, src/lib/ares_destroy.c):
 the channel lock `L`, the flag `reinit_pending`, the stored thread handle `channel->reinit_thread`, every
-reload thread ever spawned, and one application thread that calls ares_reinit() any number of times and
-finally ares_destroy().
+reload thread ever spawned, N CALLER threads (N = `pcs.length`, fixed by the initial state, any N) that may each
+call ares_reinit() any number of times in any interleaving - the application's threads and the configuration-change
+watcher of the event thread (src/lib/event/ares_event_configchg.c) alike - and one designated DESTROYER thread that
+calls ares_destroy() once.  The API contract (no call may be STARTED once ares_destroy() has been called) is the guard
+of `Step.callReinit`; calls that are already in progress when ares_destroy() is called run on and interleave with it.
 
 The transition system is small-step and executable: `step c s st = none` means that the thread selected by
-`st` is blocked (mutex owned by somebody else, join on a thread that has not finished) or has nothing to do.
-It is parametric in
+`st` is blocked (mutex owned by somebody else, join on a thread that has not finished, ares_destroy() waiting for
+the configuration-change watcher) or has nothing to do.  It is parametric in
 
   * `prog`                 the reload thread's program, a straight-line sequence of abstract operations
                            (tools/gen_reinit.py re-extracts it from ares_reinit_thread() on every run),
   * `joinHoldsLock`        whether ares_reinit() joins the previous reload thread (and spawns the new one)
                            between its lock and unlock (the tree: true; upstream 1.34.5: false),
-  * `destroyJoinHoldsLock` whether ares_destroy() joins the reload thread while holding `L` (the tree: false).
+  * `destroyJoinHoldsLock` whether ares_destroy() joins the reload thread while holding `L` (the tree: false),
 
-`L` is modelled as a plain mutex.  The real one is recursive; the difference can only be observed by a program
-that locks `L` while holding it, which `NoLockAfterClear` (CaresProps/C11b.lean) excludes.  A reload thread is
-represented by the operations it still has to execute (`[]` = it has finished, i.e. join returns).
+and, through the initial state `St.init n waitCfg waitEv`, in the number `n` of caller threads and in how many of
+them (the callers with index `< waitCfg`, `< waitEv`) ares_destroy() waits for before its join
+(ares_event_configchg_destroy) and at its very end (ares_event_thread_destroy).
+
+`L` is a mutex owned by at most one thread: caller `i`, the destroyer, or reload thread `k`.  The real one is
+recursive; the difference can only be observed by a program that locks `L` while holding it, which
+`NoLockAfterClear` (CaresProps/C11b.lean) excludes.  A thread blocked on `L` or in a join has no enabled step.
+A reload thread is represented by the operations it still has to execute (`[]` = it has finished, i.e. join returns).
 -/
 namespace Cares.Reinit
 
@@ -39,23 +47,31 @@ structure Cfg where
 /-- owner of the channel lock -/
 inductive Owner where
   | free
-  | app
+  | caller (i : Nat)  -- the i-th caller thread (inside ares_reinit)
+  | destroyer         -- the thread inside ares_destroy
   | thr (k : Nat)     -- the k-th reload thread that was spawned
   deriving Repr, DecidableEq, Inhabited
 
-/-- program counter of the application thread -/
+/-- program counter of a caller thread (a thread that calls ares_reinit) -/
 inductive APc where
-  | idle       -- between API calls
+  | idle       -- outside ares_reinit
   | rLock      -- ares_reinit: ares_channel_lock
   | rCheck     -- holds L: test sys_up / reinit_pending; return early or set reinit_pending
   | rJoin      -- if (channel->reinit_thread != NULL) ares_thread_join(...); channel->reinit_thread = NULL
   | rSpawn     -- ares_thread_create(&channel->reinit_thread, ares_reinit_thread, channel)
   | rUnlock    -- ares_channel_unlock (only if the lock was kept), return
+  deriving Repr, DecidableEq, Inhabited
+
+/-- program counter of the destroyer thread -/
+inductive DPc where
+  | idle       -- ares_destroy() has not been called yet
   | dLock1     -- ares_destroy: ares_channel_lock
   | dMark      -- holds L: sys_up = FALSE; unlock
+  | dWait      -- ares_event_configchg_destroy(): waits until the watcher is outside ares_reinit()
   | dJoin      -- join the reload thread if there is a handle
   | dLock2     -- ares_channel_lock
   | dClean     -- holds L: fail all queries, destroy server state; unlock
+  | dWaitEv    -- ares_event_thread_destroy(): joins the event thread
   | done       -- channel freed
   deriving Repr, DecidableEq, Inhabited
 
@@ -65,18 +81,24 @@ structure St where
   sysUp : Bool := true               -- channel->sys_up
   thrs : List (List ROp) := []       -- reload threads in spawn order: what each still has to execute
   handle : Option Nat := none        -- channel->reinit_thread (index into `thrs`)
-  apc : APc := .idle
+  pcs : List APc := []               -- the caller threads' program counters (length = number of callers, constant)
+  dpc : DPc := .idle                 -- the destroyer's program counter
+  waitCfg : Nat := 0                 -- ares_destroy() waits (at `dWait`) for the callers with index < waitCfg
+  waitEv : Nat := 0                  -- ... and (at `dWaitEv`) for the callers with index < waitEv      (constants)
   deriving Repr, DecidableEq, Inhabited
 
-def St.init : St := {}
+/-- `n` caller threads, all outside ares_reinit(); nothing has happened yet -/
+def St.init (n : Nat) (waitCfg waitEv : Nat := 0) : St :=
+  { pcs := List.replicate n .idle, waitCfg := waitCfg, waitEv := waitEv }
 
 inductive Step where
-  | callReinit          -- the application calls ares_reinit()
-  | callDestroy         -- the application calls ares_destroy()
-  | app                 -- the application thread executes its next step
-  | spawnFail           -- ... or ares_thread_create() fails (at `rSpawn`)
-  | thr (k : Nat)       -- reload thread k executes its next operation
-  | cfgFail (k : Nat)   -- reload thread k: ares_init_by_sysconfig fails before it applies anything (L not needed)
+  | callReinit (i : Nat)  -- caller i calls ares_reinit()  (only while ares_destroy() has not been called)
+  | callDestroy           -- the destroyer calls ares_destroy()
+  | app (i : Nat)         -- caller i executes its next step inside ares_reinit()
+  | spawnFail (i : Nat)   -- ... or its ares_thread_create() fails (at `rSpawn`)
+  | destroy               -- the destroyer executes its next step inside ares_destroy()
+  | thr (k : Nat)         -- reload thread k executes its next operation
+  | cfgFail (k : Nat)     -- reload thread k: ares_init_by_sysconfig fails before it applies anything (L not needed)
   deriving Repr, DecidableEq, Inhabited
 
 /-- reload thread `k` executes its next operation -/
@@ -107,50 +129,72 @@ def joinable (s : St) : Bool :=
     | some [] => true
     | _ => false
 
-/-- does the application thread hold L at this program point? -/
+/-- does a caller thread hold L at this program point? -/
 def appHolds (c : Cfg) : APc → Bool
-  | .rCheck | .dMark | .dClean => true
+  | .rCheck => true
   | .rJoin | .rSpawn | .rUnlock => c.joinHoldsLock
-  | .dJoin => c.destroyJoinHoldsLock
   | _ => false
 
-def appStep (c : Cfg) (s : St) : Option St :=
-  match s.apc with
-  | .idle => none
-  | .rLock => if s.owner = .free then some { s with owner := .app, apc := .rCheck } else none
-  | .rCheck =>
-    if !s.sysUp || s.pending then some { s with owner := .free, apc := .idle }
-    else if c.joinHoldsLock then some { s with pending := true, apc := .rJoin }
-    else some { s with pending := true, owner := .free, apc := .rJoin }
-  | .rJoin => if joinable s then some { s with handle := none, apc := .rSpawn } else none
-  | .rSpawn => some { s with thrs := s.thrs ++ [c.prog], handle := some s.thrs.length, apc := .rUnlock }
-  | .rUnlock => if c.joinHoldsLock then some { s with owner := .free, apc := .idle } else some { s with apc := .idle }
-  | .dLock1 => if s.owner = .free then some { s with owner := .app, apc := .dMark } else none
-  | .dMark =>
-    if c.destroyJoinHoldsLock then some { s with sysUp := false, apc := .dJoin }
-    else some { s with sysUp := false, owner := .free, apc := .dJoin }
-  | .dJoin =>
-    if joinable s then
-      some { s with handle := none, apc := if c.destroyJoinHoldsLock then .dClean else .dLock2 }
-    else none
-  | .dLock2 => if s.owner = .free then some { s with owner := .app, apc := .dClean } else none
-  | .dClean => some { s with owner := .free, apc := .done }
-  | .done => none
+/-- does the destroyer hold L at this program point? -/
+def dstHolds (c : Cfg) : DPc → Bool
+  | .dMark | .dClean => true
+  | .dWait | .dJoin => c.destroyJoinHoldsLock
+  | _ => false
 
-/-- ares_thread_create() fails: reinit_pending is reset (under L: directly when L is still held, otherwise in a
-    lock; reset; unlock section taken as one atomic step that needs L to be free) -/
-def spawnFailStep (c : Cfg) (s : St) : Option St :=
-  if s.apc = .rSpawn then
-    if c.joinHoldsLock then some { s with pending := false, apc := .rUnlock }
-    else if s.owner = .free then some { s with pending := false, apc := .rUnlock }
+/-- caller `i` executes its next step inside ares_reinit() -/
+def appStep (c : Cfg) (s : St) (i : Nat) : Option St :=
+  match s.pcs[i]? with
+  | none => none
+  | some .idle => none
+  | some .rLock => if s.owner = .free then some { s with owner := .caller i, pcs := s.pcs.set i .rCheck } else none
+  | some .rCheck =>
+    if !s.sysUp || s.pending then some { s with owner := .free, pcs := s.pcs.set i .idle }
+    else if c.joinHoldsLock then some { s with pending := true, pcs := s.pcs.set i .rJoin }
+    else some { s with pending := true, owner := .free, pcs := s.pcs.set i .rJoin }
+  | some .rJoin => if joinable s then some { s with handle := none, pcs := s.pcs.set i .rSpawn } else none
+  | some .rSpawn =>
+    some { s with thrs := s.thrs ++ [c.prog], handle := some s.thrs.length, pcs := s.pcs.set i .rUnlock }
+  | some .rUnlock =>
+    if c.joinHoldsLock then some { s with owner := .free, pcs := s.pcs.set i .idle }
+    else some { s with pcs := s.pcs.set i .idle }
+
+/-- ares_thread_create() fails in caller `i`: reinit_pending is reset (under L: directly when L is still held,
+    otherwise in a lock; reset; unlock section taken as one atomic step that needs L to be free) -/
+def spawnFailStep (c : Cfg) (s : St) (i : Nat) : Option St :=
+  if s.pcs[i]? = some .rSpawn then
+    if c.joinHoldsLock then some { s with pending := false, pcs := s.pcs.set i .rUnlock }
+    else if s.owner = .free then some { s with pending := false, pcs := s.pcs.set i .rUnlock }
     else none
   else none
 
+/-- the callers with index `< n` are all outside ares_reinit() -/
+def idleBelow (s : St) (n : Nat) : Bool := (s.pcs.take n).all (fun p => p == .idle)
+
+/-- the destroyer executes its next step inside ares_destroy() -/
+def dstStep (c : Cfg) (s : St) : Option St :=
+  match s.dpc with
+  | .idle => none
+  | .dLock1 => if s.owner = .free then some { s with owner := .destroyer, dpc := .dMark } else none
+  | .dMark =>
+    if c.destroyJoinHoldsLock then some { s with sysUp := false, dpc := .dWait }
+    else some { s with sysUp := false, owner := .free, dpc := .dWait }
+  | .dWait => if idleBelow s s.waitCfg then some { s with dpc := .dJoin } else none
+  | .dJoin =>
+    if joinable s then
+      some { s with handle := none, dpc := if c.destroyJoinHoldsLock then .dClean else .dLock2 }
+    else none
+  | .dLock2 => if s.owner = .free then some { s with owner := .destroyer, dpc := .dClean } else none
+  | .dClean => some { s with owner := .free, dpc := .dWaitEv }
+  | .dWaitEv => if idleBelow s s.waitEv then some { s with dpc := .done } else none
+  | .done => none
+
 def step (c : Cfg) (s : St) : Step → Option St
-  | .callReinit => if s.apc = .idle then some { s with apc := .rLock } else none
-  | .callDestroy => if s.apc = .idle then some { s with apc := .dLock1 } else none
-  | .app => appStep c s
-  | .spawnFail => spawnFailStep c s
+  | .callReinit i =>
+    if s.pcs[i]? = some .idle ∧ s.dpc = .idle then some { s with pcs := s.pcs.set i .rLock } else none
+  | .callDestroy => if s.dpc = .idle then some { s with dpc := .dLock1 } else none
+  | .app i => appStep c s i
+  | .spawnFail i => spawnFailStep c s i
+  | .destroy => dstStep c s
   | .thr k => thrStep s k
   | .cfgFail k => cfgFailStep s k
 
@@ -161,16 +205,20 @@ def run (c : Cfg) (s : St) : List Step → Option St
     | none => none
     | some s' => run c s' r
 
+/-- reachable from SOME initial state: any number of callers, any `waitCfg`, `waitEv` -/
 inductive Reachable (c : Cfg) : St → Prop where
-  | init : Reachable c St.init
+  | init (n waitCfg waitEv : Nat) : Reachable c (St.init n waitCfg waitEv)
   | step {s s' : St} (st : Step) : Reachable c s → step c s st = some s' → Reachable c s'
 
-/-- everything has terminated: ares_destroy() has returned and every reload thread has finished -/
-def terminated (s : St) : Bool := s.apc == .done && s.thrs.all (fun r => r.isEmpty)
+/-- everything has terminated: ares_destroy() has returned, every caller is outside ares_reinit() and every reload
+    thread has finished -/
+def terminated (s : St) : Bool :=
+  s.dpc == .done && s.pcs.all (fun p => p == .idle) && s.thrs.all (fun r => r.isEmpty)
 
 /-- the steps that can possibly be enabled in `s` -/
 def candidates (s : St) : List Step :=
-  [.callReinit, .callDestroy, .app, .spawnFail] ++
+  [.callDestroy, .destroy] ++
+    (List.range s.pcs.length).flatMap (fun i => [.callReinit i, .app i, .spawnFail i]) ++
     (List.range s.thrs.length).flatMap (fun k => [.thr k, .cfgFail k])
 
 /-- no thread can take a step (executable form) -/
